@@ -2,3 +2,6 @@
 import AM.Model.Bucket
 import AM.Lemmas.AListCount
 import AM.Props.C18Bucket
+import AM.Model.SilLimits
+import AM.Model.Sem
+import AM.Props.C18
